@@ -1,37 +1,10 @@
 (* C17: fields shared by several formats are read and written identically
    through every view. *)
 From Coq Require Import List NArith ZArith Bool Lia String.
-From O1722 Require Import Bits Host FieldModel Spec SpecProofs AccModel AccProofs FormatChecks C13Proofs C01Proofs Views.
+From O1722 Require Import Bits Host FieldModel Spec SpecProofs AccModel AccProofs FormatChecks C13Proofs C01Proofs Views Paths.
 From O1722.Generated Require Import Tables.
 Import ListNotations.
 Local Open Scope N_scope.
-
-(* every access path the API offers for field f of format s:
-   (unit, getter, integer parameters) / (unit, setter, parameters as a function of the value) *)
-Definition readers_of (s:sformat) (f:sfield) : list (unit_model * getter * list N) :=
-  match fmt_unit all_units s with
-  | Some (u, t) =>
-      match assoc (t_enum t) (sf_name f) with
-      | Some idx =>
-          match find_getter (u_getters u) (sp_get_field s) with Some g => [(u, g, [0; idx])] | None => [] end ++
-          (if str_empty (sf_getter f) then [] else
-           match find_getter (u_getters u) (sf_getter f) with Some g => [(u, g, [0])] | None => [] end)
-      | None => []
-      end
-  | None => []
-  end.
-Definition writers_of (s:sformat) (f:sfield) : list (unit_model * setter * (N -> list N)) :=
-  match fmt_unit all_units s with
-  | Some (u, t) =>
-      match assoc (t_enum t) (sf_name f) with
-      | Some idx =>
-          match find_setter (u_setters u) (sp_set_field s) with Some st => [(u, st, fun v => [0; idx; v])] | None => [] end ++
-          (if str_empty (sf_setter f) then [] else
-           match find_setter (u_setters u) (sf_setter f) with Some st => [(u, st, fun v => [0; v])] | None => [] end)
-      | None => []
-      end
-  | None => []
-  end.
 
 Lemma readers_read E s f : In s all_specs -> In f (sp_fields s) ->
   forall u g p, In (u, g, p) (readers_of s f) ->
